@@ -1,4 +1,4 @@
-import GB.C03.ProofsCompile
+import GB.C03.ProofsResolve
 /-
   C03 — property theorems. Theorems only; helper lemmas live in Proofs*.lean.
   `Tmpl` is the parsed template (`gwbased.Parse`, property C20), `Table` the routing table as a list of
@@ -41,6 +41,40 @@ theorem C03_compiled_program (t : Tmpl) (hd : deepCount t.segs ≤ 1) (comps : L
   refine ⟨rawOps_eq_sym _, ?_⟩
   rw [runSym_segs _ _ _ _ _ (tailOk_tailLenOfAtoms _ hd)]
   cases matchSegs t.segs comps <;> simp
+
+/-- The missing link, closed: the INTEGER program and constant pool `Compile` emits (`encode`: opcode/operand pairs,
+    pool de-duplication with first-occurrence indices, fields), read by the model of `NewPattern` (pool bounds,
+    variable indices, `tailLen`) and interpreted by the model of `MatchAndEscape` (pool lookups by index, `captured`
+    array by variable index, stack, `vars` zip) computes the structural matcher — for every parser-shaped template
+    with at most one `**`, every component list and every verb. -/
+theorem C03_compiled_matcher (t : Tmpl) (hs : t.ShapeOk) (hd : deepCount t.segs ≤ 1) :
+    ∃ P, newPattern 1 (compile t).opcodes (compile t).pool (compile t).verb = some P ∧ P.verb = t.verb ∧
+      ∀ comps verb, matchAndEscape P comps verb = matchTmpl t comps verb :=
+  matchAndEscape_compile t hs hd
+
+/-- `C03_matcher` for the interpreter the gateway runs: the compiled pattern matches iff `Matches`. -/
+theorem C03_matcher_code (t : Tmpl) (hs : t.ShapeOk) (hd : deepCount t.segs ≤ 1) :
+    ∃ P, newPattern 1 (compile t).opcodes (compile t).pool (compile t).verb = some P ∧
+      ∀ comps b, matchAndEscape P comps t.verb = .ok b ↔ Matches t comps t.verb b := by
+  obtain ⟨P, hP, _, hrun⟩ := matchAndEscape_compile t hs hd
+  exact ⟨P, hP, fun comps b => by rw [hrun]; exact C03_matcher t hd comps b⟩
+
+/-- `NewPattern` rejects exactly the (parser-shaped) templates with more than one `**`: those bindings are skipped. -/
+theorem C03_invalid_pattern (t : Tmpl) (hs : t.ShapeOk) :
+    newPattern 1 (compile t).opcodes (compile t).pool (compile t).verb = none ↔ 1 < deepCount t.segs := by
+  constructor
+  · intro h
+    apply Classical.byContradiction
+    intro hn
+    obtain ⟨P, hP, _⟩ := (newPattern_compile t hs).1 (by omega)
+    rw [h] at hP; cases hP
+  · exact (newPattern_compile t hs).2
+
+/-- The routing table the code builds (every binding through `Compile` + `NewPattern`, routes running
+    `MatchAndEscape`) IS the table of the abstract entries: all routing theorems below speak about it. -/
+theorem C03_code_table (ts : List TargetD) (hs : TargetsShapeOk ts) :
+    buildTable mkRouteC ts = routesOf (buildTable mkEntry ts) := by
+  rw [buildTable_C_eq_A ts hs, buildTable_routesOf]
 
 /-- One route step (verb detection on the last raw segment, stripping, matching) decides `PathMatches`. -/
 theorem C03_path_matches {ι : Type} (e : ι × Bytes × Tmpl) (hd : deepCount e.2.2.segs ≤ 1)
